@@ -25,28 +25,22 @@ def jj01_norm(raw):
 
 
 def ordered_scan(fixed, items, alt=None):
-    """Index of the first item that cannot be found (each one searched after the previous match), or None."""
+    """Index of the first item that cannot be found (each one searched after the previous match), or None.
+    With `alt` (JJ01 selected) a tag matches with any whitespace immediately inside its delimiters."""
     pos = 0
     for i, raw in enumerate(items):
-        cands = [raw] + ([alt[i]] if alt and alt[i] != raw else [])
-        best = None
-        for c in cands:
-            j = fixed.find(c, pos)
-            if j >= 0 and (best is None or j < best[0]):
-                best = (j, len(c))
-        if best is None:
-            # JJ01 may have re-padded the tag: look for the delimiters + inner text with any padding
-            if alt:
-                m = _TAG.fullmatch(raw)
-                if m:
-                    rx = re.compile(re.escape(m.group(1)) + r"\s*" + re.escape(m.group(2).strip()) + r"\s*"
-                                    + re.escape(m.group(3)))
-                    mm = rx.search(fixed, pos)
-                    if mm:
-                        pos = mm.end()
-                        continue
+        m = _TAG.fullmatch(raw) if alt else None
+        if m:
+            rx = re.compile(re.escape(m.group(1)) + r"\s*" + re.escape(m.group(2).strip()) + r"\s*" + re.escape(m.group(3)))
+            mm = rx.search(fixed, pos)
+            if not mm:
+                return i
+            pos = mm.end()
+            continue
+        j = fixed.find(raw, pos)
+        if j < 0:
             return i
-        pos = best[0] + best[1]
+        pos = j + len(raw)
     return None
 
 
@@ -109,6 +103,7 @@ class C10(Check):
     ]
 
     def selftest(self):
+        gens.tame_tqdm()
         assert jj01_norm("{{-  a }}") == "{{-a}}" and jj01_norm("{%+ if x   -%}") == "{%+if x-%}"
         assert jj01_norm("{#  c #}") == "{#c#}" and jj01_norm(":name") == ":name"
         assert ordered_scan("x {{ a }} y {{ b }}", ["{{ a }}", "{{ b }}"]) is None
@@ -116,6 +111,9 @@ class C10(Check):
         assert ordered_scan("{-  a }}", ["{{-  a }}"]) == 0
         assert ordered_scan("{{- a }}", ["{{-  a }}"], alt=["{{-a}}"]) is None
         assert ordered_scan("{{- b }}", ["{{-  a }}"], alt=["{{-a}}"]) == 0
+        # JJ01 re-pads the first of two identical tags: the scan must not jump to the second, unpadded one
+        assert ordered_scan("{% elif x %} {{ b }} {%elif x %}", ["{%elif x %}", "{{ b }}", "{%elif x %}"], alt=[1, 1, 1]) is None
+        assert ordered_scan("{% elif x %} {{ b }}", ["{%elif x %}", "{{ b }}", "{%elif x %}"], alt=[1, 1, 1]) == 2
         assert edit_kind(["a", "b"], ["b", "a"]) == "reordered" and edit_kind(["a", "b"], ["a"]) == "deleted"
         assert edit_kind(["a"], ["a", "a"]) == "duplicated" and edit_kind(["a"], ["c"]) == "altered"
         assert edit_kind(["a"], ["a", "z"]) == "added"
@@ -186,6 +184,7 @@ class C10(Check):
 
     def run_case(self, case):
         # identical Hypothesis examples are answered from a per-process memo (a fix costs about a second)
+        gens.tame_tqdm()
         key = digest(case)
         hit = self._memo.get(key)
         if hit is not None:
